@@ -26,8 +26,9 @@
   field (`actionSetField_accept`, also in `ActionKnown`).  Walker-side lemmas: OFV/Lemmas/Walk2..Walk5.lean.
   reg_load2 of a known field (`nxRegLoad2_accept`, in `ActionKnown`), packet-out through the TOP-LEVEL `Spec.walk` for any
   payload with a repeatable Len() (`packetOut_topWalk`).
-  Not done (time): nat / conntrack / learn / dec-ttl-cnt-ids actions, the BundleAdd frame, learn specs, tun_metadata
-  fields (variable length).
+  NAT actions built by ANY setter history (`nxCTNAT_accept`, in `ActionKnown`; walker side `Walk7.accept_nat`).
+  Not done (time): conntrack (needs a fuel-indexed acceptance for the nested action list) / learn / dec-ttl-cnt-ids
+  actions, the BundleAdd frame, learn specs, tun_metadata fields (variable length).
   No encoding produced by the model was found that the walker rejects.
 -/
 import OFV.Props.C02b
@@ -527,6 +528,90 @@ theorem nxRegLoad2_accept (hd f pad : V) (hkf : FieldKnown f) (ln : Nat) (bs : B
       rw [this, hmid, List.drop_drop, hzero]
       rfl
 
+/-! ### NAT actions built by any setter history -/
+
+theorem natRp_lt (ops : List NatOp) : ∀ rp, rp < 64 → natRpFrom rp ops < 64 := by
+  induction ops with
+  | nil => intro rp h; exact h
+  | cons op ops ih =>
+    intro rp h
+    simp only [natRpFrom, List.foldl_cons]
+    apply ih
+    cases op with
+    | range i x =>
+      simp only [natRpStep]
+      have hb : natBit i < 2 ^ 6 := by revert i; decide
+      exact Nat.or_lt_two_pow (n := 6) h hb
+    | _ => exact h
+
+theorem unpaddedLen_natSz : ∀ rp : Fin 64, (NXActionCTNAT.unpaddedLen rp.val).toNat = natSz rp.val := by decide
+
+/-- NAT ACTIONS BUILT BY ANY SETTER HISTORY are accepted by the real walker: for every sequence of calls (flag setters,
+    the six range setters with proper arguments, in any order, with repetitions, Len() interleaved) starting from
+    NewNXActionCTNAT(), the encoding has the Nicira NAT codes, zero pad bytes, a presence word below 64, exactly the
+    size the presence bits demand rounded up to 8, and a zero tail -/
+theorem nxCTNAT_accept (ops : List NatOp) (hok : ∀ op ∈ ops, NatArgOK op) (w : V)
+    (h : runOps natApply NXActionCTNAT.new ops = .ok w) (bs : Bytes) (w' : V) (hm : NXActionCTNAT.marshalM w = .ok (bs, w')) :
+    Accepted bs := by
+  obtain ⟨h1, fl', rp', a, b, c, d, e, f, hw, hp⟩ := nat_present_from_any ops _ _ 0 0 [] [] [] [] .nil .nil w h hok natPresent_new
+  obtain ⟨ln, fl, a2, b2, c2, d2, e2, f2, hw2, _, _, _, hlen⟩ := C03c.nat_history_length ops w h
+  obtain ⟨hl1, hl2, hl3⟩ := hlen bs w' hm
+  have hnx : nxhdr w = some (Gen.openflow13.ActionType_Experimenter, ln, Gen.openflow13.NxExperimenterID,
+      (n16 Gen.openflow13.NXAST_NAT).toNat) := by rw [hw2]; rfl
+  obtain ⟨_, hal, hnxw⟩ := nxCTNAT_wire w bs w' _ _ _ _ hnx hm
+  rw [hw] at hw2
+  simp only [natObj, V.obj.injEq, true_and, List.cons.injEq, V.num.injEq, and_true] at hw2
+  obtain ⟨_, _, erp, _⟩ := hw2
+  subst hw
+  have hrp : rp' < 64 := by rw [erp]; exact natRp_lt ops 0 (by decide)
+  have hopt := natOptBits_length rp' a b c d e f hp
+  rw [← erp] at hl2 hl3
+  have hsz : (NXActionCTNAT.unpaddedLen rp').toNat = natSz rp' := unpaddedLen_natSz ⟨rp', hrp⟩
+  rw [hsz] at hl2 hl3 hopt
+  obtain ⟨hb, hhb, hbs⟩ := C03b.nxCTNAT_presence _ _ _ _ _ _ _ _ _ _ bs w' hm hp (by omega)
+  have h16 : 16 ≤ bs.length := by unfold natSz at hl2; omega
+  have hN := hnxw (by omega)
+  generalize hO : natOptBits rp' a b c d e f = O at hbs hopt
+  have hrpn : (n16 rp').toNat = rp' := by rw [n16_toNat']; omega
+  refine accepted_of _ _ (accept_nat bs rp' h16 hal hN.code_ok hN.len_ok hN.vendor_ok hN.sub_ok ?_ ?_ hrp ?_ ?_)
+  · rw [hbs]
+    have : ∀ (p z r : Bytes), p.length = 10 → z.length = 2 → slice (p ++ z ++ r) 10 2 = z := by
+      intro p z r hp' hz
+      unfold slice
+      rw [List.append_assoc, ← hp', List.drop_left, ← hz, List.take_left]
+    simp only [List.append_assoc]
+    have := this hb (zeros 2) (be16 (n16 fl') ++ (be16 (n16 rp') ++ (O ++ zeros (bs.length - (16 + O.length))))) hhb (by simp [zeros])
+    simp only [List.append_assoc] at this
+    rw [this]; exact (allZero_iff _).mpr (allZero_zeros 2)
+  · rw [u16At_eq_beAt _ _ (by omega)]
+    conv => lhs; rw [hbs]
+    have hr := beAt_append_right (hb ++ zeros 2 ++ be16 (n16 fl')) (be16 (n16 rp') ++ (O ++ zeros (bs.length - (16 + O.length)))) 0 2
+    simp only [List.length_append, hhb, zeros_length, be16_length, Nat.add_zero, List.append_assoc] at hr ⊢
+    rw [hr, beAt_be16, hrpn]
+  · unfold Spec.round8; omega
+  · have hd : bs.drop (natSz rp') = zeros (bs.length - (16 + O.length)) := by
+      conv => lhs; rw [hbs]
+      have : (hb ++ zeros 2 ++ be16 (n16 fl') ++ be16 (n16 rp') ++ O).length = natSz rp' := by
+        simp [hhb, zeros_length]; omega
+      rw [← this, List.drop_left]
+    unfold slice
+    rw [hd]
+    apply (allZero_iff _).mpr
+    intro x hx
+    exact allZero_zeros _ x (List.mem_of_mem_take hx)
+
+/-- ports before addresses, SNAT, a Len() in the middle, IPv4-min set twice -/
+def exNatOps : List NatOp :=
+  [.range 4 (.num 1000), .snat, .range 0 (.bytes [10, 0, 0, 1]), .len, .range 0 (.bytes [10, 0, 0, 9])]
+
+/-- `nxCTNAT_accept` applies to that history -/
+example : ∃ w, runOps natApply NXActionCTNAT.new exNatOps = .ok w ∧
+    (NXActionCTNAT.marshalM w).isOk = true ∧ ∀ bs w', NXActionCTNAT.marshalM w = .ok (bs, w') → Accepted bs := by
+  refine ⟨_, rfl, rfl, fun bs w' hm => nxCTNAT_accept exNatOps ?_ _ rfl bs w' hm⟩
+  intro op hop
+  simp only [exNatOps, List.mem_cons, List.mem_nil_iff, or_false] at hop
+  rcases hop with rfl | rfl | rfl | rfl | rfl <;> simp [NatArgOK] <;> decide
+
 /-! ### single actions: the REAL walker (`Spec.walkAction`) accepts what the library writes -/
 
 /-- an output action with the header NewActionOutput stores (type 0, length 16), ANY port and max-length, 6 zero pad
@@ -586,8 +671,8 @@ def nxFixedKinds : List String := ["NXActionConjunction", "NXActionRegLoad", "NX
     output (6 zero pad bytes), group, set-queue, dec-nw-ttl, pop-vlan, push-vlan/mpls/pbb, pop-mpls, set-mpls-ttl,
     set-nw-ttl, and the fixed-size Nicira actions conjunction, reg-load, reg-move, resubmit, resubmit-table (also the
     ct variant), output-reg, ct-clear, dec-ttl, controller (whatever length is stored), note (any note of at most
-    65 518 bytes), set-field of any known match field with the stored Length = Len(), reg_load2 of any known match field — any field
-    values -/
+    65 518 bytes), set-field of any known match field with the stored Length = Len(), reg_load2 of any known match field, a NAT action built from NewNXActionCTNAT() by ANY
+    setter history with proper arguments — any field values -/
 def ActionKnown (v : V) : Prop :=
   (∃ port ml, v = .obj "ActionOutput" [ActionHeader.mk 0 16, .num port, .num ml, .bytes (zeros 6)]) ∨
   (v.kind = "ActionGroup" ∧ ahdr v = some (22, 8)) ∨
@@ -605,7 +690,8 @@ def ActionKnown (v : V) : Prop :=
     ActionSetField.lenM (.obj "ActionSetField" [hd, f]) = .ok (l, v1) ∧
     ahdr (.obj "ActionSetField" [hd, f]) = some (25, l.toNat)) ∨
   (∃ hd f pad ln, v = .obj "NXActionRegLoad2" [hd, f, pad] ∧ FieldKnown f ∧
-    nxhdr (.obj "NXActionRegLoad2" [hd, f, pad]) = some (0xffff, ln, 0x2320, 33))
+    nxhdr (.obj "NXActionRegLoad2" [hd, f, pad]) = some (0xffff, ln, 0x2320, 33)) ∨
+  (∃ ops, runOps natApply NXActionCTNAT.new ops = .ok v ∧ ∀ op ∈ ops, NatArgOK op)
 
 macro "act_leaf0" v:ident hk:ident h:ident K:ident : tactic => `(tactic| (
   have e : Action.marshalM $v = $K $v := by
@@ -618,7 +704,7 @@ theorem action_accept (v : V) (hk : ActionKnown v) (bs : Bytes) (v2 : V) (h : Ac
     Accepted bs := by
   rcases hk with ⟨port, ml, rfl⟩ | ⟨hk, ha⟩ | ⟨hk, ha⟩ | ⟨hk, ha⟩ | ⟨hk, ha⟩ | ⟨hk, ty, hty, ha⟩ | ⟨hk, ha⟩ | ⟨hk, ha⟩ |
     ⟨hk, ha⟩ | ⟨hk, sub, sz, hs, hn⟩ | ⟨hk, ln, hn⟩ | ⟨hd, note, ln, rfl, hfit, hn⟩ |
-    ⟨hd, f, l, v1, rfl, hkf, hl, hwf⟩ | ⟨hd, f, pad, ln, rfl, hkf, hwf⟩
+    ⟨hd, f, l, v1, rfl, hkf, hl, hwf⟩ | ⟨hd, f, pad, ln, rfl, hkf, hwf⟩ | ⟨ops, hops, hok⟩
   · have e : Action.marshalM (.obj "ActionOutput" [ActionHeader.mk 0 16, .num port, .num ml, .bytes (zeros 6)]) =
         ActionOutput.marshalM (.obj "ActionOutput" [ActionHeader.mk 0 16, .num port, .num ml, .bytes (zeros 6)]) := by
       simp [Action.marshalM, Action.marshalD, Action.marshalLeaf, V.kind]
@@ -686,6 +772,11 @@ theorem action_accept (v : V) (hk : ActionKnown v) (bs : Bytes) (v2 : V) (h : Ac
       simp [Action.marshalM, Action.marshalD, Action.marshalLeaf, V.kind]
     rw [e] at h
     exact nxRegLoad2_accept hd f pad hkf ln bs v2 hwf h
+  · obtain ⟨_, _, _, _, _, _, _, _, hw2, _⟩ := C03c.nat_history_length ops v hops
+    have e : Action.marshalM v = NXActionCTNAT.marshalM v := by
+      rw [hw2]; simp [Action.marshalM, Action.marshalD, Action.marshalLeaf, natObj, V.kind]
+    rw [e] at h
+    exact nxCTNAT_accept ops hok v hops bs v2 h
 
 /-! ### buckets and group-mod through the real walker -/
 
@@ -1558,77 +1649,5 @@ example : ∃ m, exFields.foldlM (fun acc f => Match.addField acc f) Match.new =
           · exact ⟨actionWF_output 7, known_output 7⟩
           · exact ⟨actionWF_group 3, known_group 3⟩) h
   exact ⟨_, hwalk⟩
-
-/-! ### NAT actions built by any setter history -/
-
-theorem natRp_lt (ops : List NatOp) : ∀ rp, rp < 64 → natRpFrom rp ops < 64 := by
-  induction ops with
-  | nil => intro rp h; exact h
-  | cons op ops ih =>
-    intro rp h
-    simp only [natRpFrom, List.foldl_cons]
-    apply ih
-    cases op with
-    | range i x =>
-      simp only [natRpStep]
-      have hb : natBit i < 2 ^ 6 := by revert i; decide
-      exact Nat.or_lt_two_pow (n := 6) h hb
-    | _ => exact h
-
-theorem unpaddedLen_natSz : ∀ rp : Fin 64, (NXActionCTNAT.unpaddedLen rp.val).toNat = natSz rp.val := by decide
-
-/-- NAT ACTIONS BUILT BY ANY SETTER HISTORY are accepted by the real walker: for every sequence of calls (flag setters,
-    the six range setters with proper arguments, in any order, with repetitions, Len() interleaved) starting from
-    NewNXActionCTNAT(), the encoding has the Nicira NAT codes, zero pad bytes, a presence word below 64, exactly the
-    size the presence bits demand rounded up to 8, and a zero tail -/
-theorem nxCTNAT_accept (ops : List NatOp) (hok : ∀ op ∈ ops, NatArgOK op) (w : V)
-    (h : runOps natApply NXActionCTNAT.new ops = .ok w) (bs : Bytes) (w' : V) (hm : NXActionCTNAT.marshalM w = .ok (bs, w')) :
-    Accepted bs := by
-  obtain ⟨h1, fl', rp', a, b, c, d, e, f, hw, hp⟩ := nat_present_from_any ops _ _ 0 0 [] [] [] [] .nil .nil w h hok natPresent_new
-  obtain ⟨ln, fl, a2, b2, c2, d2, e2, f2, hw2, _, _, _, hlen⟩ := C03c.nat_history_length ops w h
-  obtain ⟨hl1, hl2, hl3⟩ := hlen bs w' hm
-  have hnx : nxhdr w = some (Gen.openflow13.ActionType_Experimenter, ln, Gen.openflow13.NxExperimenterID,
-      (n16 Gen.openflow13.NXAST_NAT).toNat) := by rw [hw2]; rfl
-  obtain ⟨_, hal, hnxw⟩ := nxCTNAT_wire w bs w' _ _ _ _ hnx hm
-  rw [hw] at hw2
-  simp only [natObj, V.obj.injEq, true_and, List.cons.injEq, V.num.injEq, and_true] at hw2
-  obtain ⟨_, _, erp, _⟩ := hw2
-  subst hw
-  have hrp : rp' < 64 := by rw [erp]; exact natRp_lt ops 0 (by decide)
-  have hopt := natOptBits_length rp' a b c d e f hp
-  rw [← erp] at hl2 hl3
-  have hsz : (NXActionCTNAT.unpaddedLen rp').toNat = natSz rp' := unpaddedLen_natSz ⟨rp', hrp⟩
-  rw [hsz] at hl2 hl3 hopt
-  obtain ⟨hb, hhb, hbs⟩ := C03b.nxCTNAT_presence _ _ _ _ _ _ _ _ _ _ bs w' hm hp (by omega)
-  have h16 : 16 ≤ bs.length := by unfold natSz at hl2; omega
-  have hN := hnxw (by omega)
-  generalize hO : natOptBits rp' a b c d e f = O at hbs hopt
-  have hrpn : (n16 rp').toNat = rp' := by rw [n16_toNat']; omega
-  refine accepted_of _ _ (accept_nat bs rp' h16 hal hN.code_ok hN.len_ok hN.vendor_ok hN.sub_ok ?_ ?_ hrp ?_ ?_)
-  · rw [hbs]
-    have : ∀ (p z r : Bytes), p.length = 10 → z.length = 2 → slice (p ++ z ++ r) 10 2 = z := by
-      intro p z r hp' hz
-      unfold slice
-      rw [List.append_assoc, ← hp', List.drop_left, ← hz, List.take_left]
-    simp only [List.append_assoc]
-    have := this hb (zeros 2) (be16 (n16 fl') ++ (be16 (n16 rp') ++ (O ++ zeros (bs.length - (16 + O.length))))) hhb (by simp [zeros])
-    simp only [List.append_assoc] at this
-    rw [this]; exact (allZero_iff _).mpr (allZero_zeros 2)
-  · rw [u16At_eq_beAt _ _ (by omega)]
-    conv => lhs; rw [hbs]
-    have hr := beAt_append_right (hb ++ zeros 2 ++ be16 (n16 fl')) (be16 (n16 rp') ++ (O ++ zeros (bs.length - (16 + O.length)))) 0 2
-    simp only [List.length_append, hhb, zeros_length, be16_length, Nat.add_zero, List.append_assoc] at hr ⊢
-    rw [hr, beAt_be16, hrpn]
-  · unfold Spec.round8; omega
-  · have hd : bs.drop (natSz rp') = zeros (bs.length - (16 + O.length)) := by
-      conv => lhs; rw [hbs]
-      have : (hb ++ zeros 2 ++ be16 (n16 fl') ++ be16 (n16 rp') ++ O).length = natSz rp' := by
-        simp [hhb, zeros_length]; omega
-      rw [← this, List.drop_left]
-    unfold slice
-    rw [hd]
-    apply (allZero_iff _).mpr
-    intro x hx
-    exact allZero_zeros _ x (List.mem_of_mem_take hx)
 
 end OFV.Props.C02c
